@@ -178,7 +178,11 @@ func (e *Engine) FuncObj(pkg, name string) *types.Func {
 		if n == nil {
 			return nil
 		}
-		obj, _, _ := types.LookupFieldOrMethod(types.NewPointer(n), true, tp, name[i+1:])
+		var recv types.Type = types.NewPointer(n)
+		if _, isIface := n.Underlying().(*types.Interface); isIface {
+			recv = n
+		}
+		obj, _, _ := types.LookupFieldOrMethod(recv, true, tp, name[i+1:])
 		f, _ := obj.(*types.Func)
 		return f
 	}
@@ -592,4 +596,155 @@ func (e *Engine) PkgOfFn(fn *ssa.Function) *packages.Package {
 		return nil
 	}
 	return e.All[fn.Pkg.Pkg.Path()]
+}
+
+// ---------------------------------------------------------------------------
+// one-level context-sensitive reachability: callees are specialised on the
+// constant fields of struct literals passed by pointer (e.g. the event type
+// of an `&events.Policy{Type: events.ContainerStarted}` argument), so that
+// `switch e.Type` arms that cannot be taken for this call are not followed.
+
+type constFields map[*types.Var]*ssa.Const
+
+func constFieldsOfArg(v ssa.Value) constFields {
+	a, ok := v.(*ssa.Alloc)
+	if !ok {
+		return nil
+	}
+	out := constFields{}
+	for _, ref := range *a.Referrers() {
+		fa, ok := ref.(*ssa.FieldAddr)
+		if !ok {
+			continue
+		}
+		f := fieldOfAddr(fa)
+		n := 0
+		var k *ssa.Const
+		for _, r2 := range *fa.Referrers() {
+			if st, ok := r2.(*ssa.Store); ok && st.Addr == fa {
+				n++
+				k, _ = st.Val.(*ssa.Const)
+			}
+		}
+		if n == 1 && k != nil && k.Value != nil {
+			out[f] = k
+		}
+	}
+	if len(out) == 0 {
+		return nil
+	}
+	return out
+}
+
+func ctxAssumption(ctx map[int]constFields) Assumption {
+	return func(cond ssa.Value) (bool, bool) {
+		b, ok := cond.(*ssa.BinOp)
+		if !ok || (b.Op != token.EQL && b.Op != token.NEQ) {
+			return false, false
+		}
+		for _, pair := range [][2]ssa.Value{{b.X, b.Y}, {b.Y, b.X}} {
+			k, ok := pair[1].(*ssa.Const)
+			if !ok || k.Value == nil {
+				continue
+			}
+			f, base := loadedField(pair[0])
+			if f == nil {
+				continue
+			}
+			pi := paramIndex(base)
+			if pi < 0 {
+				continue
+			}
+			cf := ctx[pi]
+			if cf == nil {
+				continue
+			}
+			kv, ok := cf[f]
+			if !ok {
+				continue
+			}
+			eq := kv.Value.ExactString() == k.Value.ExactString()
+			if b.Op == token.NEQ {
+				eq = !eq
+			}
+			return true, eq
+		}
+		return false, false
+	}
+}
+
+func (e *Engine) specReach(fn *ssa.Function, ctx map[int]constFields, targets map[*ssa.Function]bool, depth int, seen map[*ssa.Function]bool) bool {
+	if targets[fn] {
+		return true
+	}
+	if fn.Blocks == nil {
+		return false
+	}
+	if len(ctx) == 0 || depth > 4 {
+		return e.ReachesAny(fn, targets, 0)
+	}
+	if seen[fn] {
+		return false
+	}
+	seen[fn] = true
+	assume := ctxAssumption(ctx)
+	hit := false
+	AllInstrs(fn, func(in ssa.Instruction) {
+		if hit {
+			return
+		}
+		var callees []*ssa.Function
+		var args []ssa.Value
+		switch x := in.(type) {
+		case ssa.CallInstruction:
+			callees = e.Callees(x)
+			args = callArgs(x)
+		case *ssa.MakeClosure:
+			if f, ok := x.Fn.(*ssa.Function); ok {
+				callees = []*ssa.Function{f}
+			}
+		default:
+			return
+		}
+		if len(callees) == 0 {
+			return
+		}
+		if FindPath(PathQuery{Fn: fn, Assume: assume, Target: func(t ssa.Instruction) bool { return t == in }}) == nil {
+			return // not reachable in this calling context
+		}
+		sub := map[int]constFields{}
+		for j, a := range args {
+			if pi := paramIndex(a); pi >= 0 && ctx[pi] != nil {
+				sub[j] = ctx[pi]
+			}
+		}
+		for _, g := range callees {
+			if e.specReach(g, sub, targets, depth+1, seen) {
+				hit = true
+				return
+			}
+		}
+	})
+	return hit
+}
+
+// CallReachesCtx: may the call reach a target function, taking the constant
+// fields of struct-literal arguments into account?
+func (e *Engine) CallReachesCtx(in ssa.Instruction, targets map[*ssa.Function]bool) bool {
+	ci, ok := in.(ssa.CallInstruction)
+	if !ok {
+		return false
+	}
+	ctx := map[int]constFields{}
+	for j, a := range callArgs(ci) {
+		if cf := constFieldsOfArg(a); cf != nil {
+			ctx[j] = cf
+		}
+	}
+	for _, f := range e.Callees(ci) {
+		if e.specReach(f, ctx, targets, 0, map[*ssa.Function]bool{}) {
+			return true
+		}
+	}
+	return false
 }
